@@ -12,6 +12,7 @@ use frost_core::keys::repairable;
 use frost_core::keys::{self, IdentifierList};
 use serde_json::json;
 
+use crate::c19::scenario_batch_cancelling_errors;
 use crate::common::*;
 use crate::rng::TestRng;
 use crate::{scn, Scenario};
@@ -23,6 +24,9 @@ pub fn scenarios() -> Vec<Scenario> {
         scn!(scenario_repair_randomness),
         scn!(scenario_refresh_randomness),
         scn!(scenario_randomizer_and_key_randomness),
+        scn!(scenario_batch_blinders),
+        // the observable consequence of equal blinders: errors that cancel are accepted
+        scn!(scenario_batch_cancelling_errors),
     ]
 }
 
@@ -203,4 +207,42 @@ pub fn scenario_randomizer_and_key_randomness<C: Suite>(rng: &mut TestRng, p: &P
     check(a.0 == b.0 && a.1 == b.1, "RandomizedParams::new_from_commitments is reproducible from the same random stream", "equal", "different")?;
     check(a.1 != c.1 && a.0.randomizer() != c.0.randomizer(), "another random stream gives another randomizer seed and randomizer", "different", "equal")?;
     check(a.1.iter().any(|x| *x != 0), "the randomizer seed is drawn from the random source", "non-zero bytes", "all zero")
+}
+
+/// Batch verification draws one blinder per item from the supplied source.
+pub fn scenario_batch_blinders<C: Suite>(rng: &mut TestRng, _p: &Params, notes: &mut Notes) -> Verdict {
+    use frost_core::batch;
+    let sk = fc::SigningKey::<C>::new(rng);
+    let vk = fc::VerifyingKey::<C>::from(&sk);
+    let n = rng.range(2, 9);
+    notes.insert("batch_size".into(), json!(n));
+    let items: Vec<batch::Item<C>> = (0..n)
+        .filter_map(|i| {
+            let msg = format!("item {i}").into_bytes();
+            let sig = sk.sign(&mut *rng, &msg);
+            batch::Item::<C>::new(vk, sig, &msg).ok()
+        })
+        .collect();
+    if items.len() != n {
+        return skip("cannot build items");
+    }
+    let seed = rng.u64();
+    let drawn = |k: usize| -> (bool, u64) {
+        let mut src = TestRng::new(seed);
+        let mut v = batch::Verifier::<C>::new();
+        for it in items.iter().take(k) {
+            v.queue(it.clone());
+        }
+        (v.verify(&mut src).is_ok(), src.bytes_drawn)
+    };
+    let (ok1, b1) = drawn(1);
+    let (okn, bn) = drawn(n);
+    check(ok1 && okn, "batches of valid signatures verify", "Ok", "Err")?;
+    check(b1 > 0, "batch verification draws its blinder from the supplied random source", "> 0 bytes", "0 bytes")?;
+    check(
+        bn >= n as u64 * b1,
+        "batch verification obtains one blinder per item from distinct draws of the supplied random source",
+        format!("at least {} bytes for {n} items ({b1} bytes for one item)", n as u64 * b1),
+        format!("{bn} bytes"),
+    )
 }
